@@ -11,6 +11,9 @@ import (
 // quotient chain q_i = 10*q_{i+1} + d_i (DESIGN 2.1 rule (i)). This stands in for
 // strconv.FormatUint/FormatInt, whose real bodies index a 200-byte table with v%100*2.
 func symDecimal(v symv) []value {
+	if fmtDepth > 0 {
+		return strBytes("<sym>")
+	}
 	t := v.t
 	neg := false
 	lo, _ := kindRange(v.kind)
